@@ -86,6 +86,11 @@ type c07Obs struct {
 }
 
 func (o *c07Obs) ObserveEvent(e observer.Event) {
+	if o.st.inNested {
+		// events of the OTHER run of an overlapping pair: clones share the event notifier by design, so this run's
+		// observers are handed them too; they are not this run's events
+		return
+	}
 	var code int
 	switch e.EventType {
 	case observer.StartedAnnealing:
@@ -154,6 +159,8 @@ type c07Script struct {
 	who          int // the observer that panics (where >= c07WhereStartIterObserver)
 	td           int // payload kind of a panic raised by TearDown (0: TearDown returns)
 	tries, cools uint64
+	inNested     bool
+	nestedRun    func() // (clone cases) a SECOND clone of the same configured annealer anneals to completion inside this run's first iteration
 	origErr      error
 	origOther    string
 	tdErr        error
@@ -203,6 +210,11 @@ func (x *c07Explorer) TearDown() {
 func (x *c07Explorer) TryRandomChange() {
 	x.st.tries++
 	x.log.pseudo(c07Try, x.st.tries)
+	if x.st.tries == 1 && x.st.nestedRun != nil {
+		f := x.st.nestedRun
+		x.st.nestedRun = nil
+		f()
+	}
 	if x.st.where == c07WhereTry && x.st.tries == x.st.k {
 		x.st.raise(x.st.pay)
 	}
@@ -364,6 +376,7 @@ type c07Case struct {
 	who    int // panicking observer (where >= c07WhereStartIterObserver)
 	td     int // TearDown panics with this payload kind (0 = no)
 	clone  bool // anneal a DeepClone() of the built annealer (what scenario.Runner does)
+	nested bool // (with clone) ANOTHER clone of the same built annealer runs to completion while this run is inside its first iteration (overlapping runs)
 	prior  bool // (with clone) an EARLIER clone of the same built annealer has already run to completion (Runner: run 1 before run 2)
 	second bool // observe a SECOND Anneal() of the same instance (currentIteration starts at c0 = what the first left)
 	raw    bool
@@ -430,9 +443,25 @@ func c07Execute(c c07Case) c07Result {
 			st.tries, st.cools = 0, 0
 			c07Stats["clone_after_prior_run"]++
 		}
+		built := ann
 		ann = ann.DeepClone()
 		wrapper = ann.SolutionExplorer().(*c07Explorer)
 		inner = wrapper.Explorer
+		if c.nested {
+			other := built.DeepClone()
+			ow := other.SolutionExplorer().(*c07Explorer)
+			ow.log = &c07Log{temp: func() float64 { return 0 }} // the other run's events are not this run's business
+			ow.st = &c07Script{}
+			other.SetLogHandler(new(loggers.NullLogger))
+			st.nestedRun = func() {
+				st.inNested = true
+				defer func() { st.inNested = false }()
+				if p, v := c07Catch(other.Anneal); p {
+					log.anomaly(fmt.Sprint("a fault-free Anneal() of another clone panicked: ", v))
+				}
+			}
+			c07Stats["clone_with_overlapping_run"]++
+		}
 	}
 	log.temp = c07TempReader(inner)
 	ann.SetLogHandler(new(loggers.NullLogger))
@@ -877,6 +906,7 @@ func runC07(args []string) {
 		c.m = rng.intn(4)
 		c.clone = rng.intn(3) == 0
 		c.prior = c.clone && rng.intn(2) == 0
+		c.nested = c.clone && rng.intn(2) == 0
 	}
 	ns := []uint64{0, 1, 2, 7, 100}
 	allM := false
